@@ -144,8 +144,8 @@ bool judge(const CircuitSpec &s, const ColoquinteParameters &params, Report &R, 
 }
 }  // namespace
 
-// Small-scope exhaustive part: three row configurations (two full rows; a split
-// row under a full row; three short alternating rows) x {no obstruction, a 1x1
+// Small-scope exhaustive part: four row configurations (two full rows; a split
+// row under a full row; three short alternating rows; two levels of two abutting segments) x {no obstruction, a 1x1
 // fixed obstruction} x every combination of 1..2 (3 thorough) movable cells of
 // size {1x1,2x1,1x2,3x1}, polarity {ANY,SAME,NW}, target x in -1..5, y in -1..3
 // x two ordering parameter sets.
@@ -153,7 +153,9 @@ bool exhaustive(Report &R, int shard, int nshards, Tape &failTape) {
   std::vector<std::vector<Row>> cfgs = {
       {Row(0, 4, 0, 1, CellOrientation::N), Row(0, 4, 1, 2, CellOrientation::FS)},
       {Row(0, 2, 0, 1, CellOrientation::N), Row(3, 5, 0, 1, CellOrientation::N), Row(0, 5, 1, 2, CellOrientation::FS)},
-      {Row(0, 3, 0, 1, CellOrientation::N), Row(0, 3, 1, 2, CellOrientation::FS), Row(0, 3, 2, 3, CellOrientation::N)}};
+      {Row(0, 3, 0, 1, CellOrientation::N), Row(0, 3, 1, 2, CellOrientation::FS), Row(0, 3, 2, 3, CellOrientation::N)},
+      // abutting segments at the same x on both levels
+      {Row(0, 2, 0, 1, CellOrientation::N), Row(2, 4, 0, 1, CellOrientation::N), Row(0, 2, 1, 2, CellOrientation::FS), Row(2, 4, 1, 2, CellOrientation::FS)}};
   struct Opt {
     int w, h, pol, x, y;
   };
@@ -227,7 +229,7 @@ bool exhaustive(Report &R, int shard, int nshards, Tape &failTape) {
         }
     }
   R.exhaustiveDone = true;
-  R.sample(std::string("{\"exhaustive\":\"3 row configurations x {no obstruction, 1x1 obstruction} x all 1..2 cell combinations from 4 sizes x 3 polarities x 35 targets") +
+  R.sample(std::string("{\"exhaustive\":\"4 row configurations x {no obstruction, 1x1 obstruction} x all 1..2 cell combinations from 4 sizes x 3 polarities x 35 targets") +
            (th ? ", plus all 3-cell combinations from a reduced set of 54 options" : "") + ", x 2 ordering-width values\"}");
   return true;
 }
